@@ -51,7 +51,7 @@ func parseField(field string, line int) (any, error) {
 	if err == nil {
 		return int(integer), nil
 	}
-	float, err := strconv.ParseFloat(field, bits.UintSize)
+	float, err := strconv.ParseFloat(field, 64)
 	if err == nil {
 		return float, nil
 	}
